@@ -139,7 +139,7 @@ class NPFacade:
         return real_np.array(x, dtype=object)
 
     def arange(s, *a):
-        a = [core.sym_int(v) if isinstance(v, SC) else v for v in a]
+        a = [core.sym_int(v) if isinstance(v, SC) else (int(v) if isinstance(v, F) and v.denominator == 1 else v) for v in a]
         r = real_np.arange(*a)
         return real_np.array([v.item() for v in r], dtype=object)
 
@@ -279,7 +279,8 @@ class NPFacade:
 
     def angle(s, z, deg=False):
         if not isinstance(z, SC): return real_np.angle(z, deg=deg)
-        raise Inconclusive('np.angle of a symbolic value (needs polar stub)')
+        if deg: raise Inconclusive('np.angle(deg=True) of a symbolic value')
+        return core.polar(z)[1]
 
     def mod(s, a, b):
         if _is_sym(a) or _is_sym(b):
